@@ -564,7 +564,7 @@ func checkC06(c *core.Ctx) []core.Floor {
 // ---------- C07 ----------
 
 func checkC07(c *core.Ctx) []core.Floor {
-	c.Rule = "tables of 0-30 rows with grouping columns whose printed forms collide when concatenated (('1','23') vs ('12','3'), (1,23) vs (12,3), 'true' vs true, empty strings), integer columns for AVG incl. extremes and sets whose running average rounds differently from the true average, a nullable column for COUNT(col); queries with 0-3 grouping columns written as a comma separated list, referenced by bare name, qualifier or alias, placed at any position of the select list, aggregates COUNT(*)/COUNT(col)/AVG(int)/AVG(bigint), optional WHERE, optional JOIN on top; compared as multisets with exact-sum reference (AVG exactly at .5: both neighbours accepted). Every query runs on three insertion orders of the same rows; the three results must also be equal to each other. Distinct = query text; non-trivial = the input has at least two rows."
+	c.Rule = "tables of 0-30 rows with grouping columns whose printed forms collide when concatenated (('1','23') vs ('12','3'), (1,23) vs (12,3), 'true' vs true, empty strings), integer columns for AVG incl. extremes and sets whose running average rounds differently from the true average, a nullable column for COUNT(col); queries with 0-3 grouping columns written as a comma separated list, referenced by bare name, qualifier or alias, placed at any position of the select list, aggregates COUNT(*)/COUNT(col)/AVG(int)/AVG(bigint), optional WHERE, optional JOIN on top; compared as multisets with exact-sum reference (AVG exactly at .5: both neighbours accepted). Every query runs on three insertion orders of the same rows; the three results must also be equal to each other. In addition, sessions of 6-14 statements (CREATE TABLE / INSERT / UPDATE / DELETE) ask the same bare COUNT(*) and COUNT(col) after every statement, on every user table and on both catalog tables: the answer must be the number of (non-NULL) rows SELECT * returns at that moment. Distinct = query text; non-trivial = the input has at least two rows."
 	c.Assume = []string{"AVG over integer columns only, NULLs only under COUNT(col)"}
 	drv := mustDriver(c, false)
 	n := 100
@@ -572,7 +572,8 @@ func checkC07(c *core.Ctx) []core.Floor {
 		n = 2000
 	}
 	core.ParallelFor(n, c.Workers, func(i int) { runC07(c, drv, i) })
-	return []core.Floor{{Key: "queries", Min: 2000}, {Key: "results_equal_to_reference", Min: 500}, {Key: "order_independence_checked", Min: 500},
+	core.ParallelFor(n/2, c.Workers, func(i int) { runC07Requery(c, drv, i) })
+	return []core.Floor{{Key: "repeated_aggregates_compared", Min: 500}, {Key: "repeated_aggregates_on_catalog_tables", Min: 200}, {Key: "queries", Min: 2000}, {Key: "results_equal_to_reference", Min: 500}, {Key: "order_independence_checked", Min: 500},
 		{Key: "group_cols_0", Min: 20}, {Key: "group_cols_1", Min: 20}, {Key: "group_cols_2", Min: 20}, {Key: "group_cols_3", Min: 20},
 		{Key: "ref_by_alias", Min: 20}, {Key: "ref_by_qualifier", Min: 20}, {Key: "group_col_not_first", Min: 20}, {Key: "on_top_of_join", Min: 20}, {Key: "empty_input", Min: 5}, {Key: "group_by_same_named_columns_of_both_join_sides", Min: 20}}
 }
